@@ -25,6 +25,7 @@ from functools import total_ordering, reduce
 from collections.abc import Mapping, Iterable
 
 from discopy import messages
+from discopy import _verif
 
 
 def rmap(func, data):
@@ -161,6 +162,8 @@ class Arrow:
                 raise AxiomError(messages.does_not_compose(
                     boxes[-1] if boxes else Id(dom), Id(cod)))
         self._dom, self._cod, self._boxes = dom, cod, boxes
+        if _verif.ENABLED:
+            _verif.on_construct(self)
 
     @staticmethod
     def upgrade(old):
